@@ -7,7 +7,7 @@
    Here: the facts that make this a property of whole pipelines. *)
 From Coq Require Import List ZArith Bool Arith.
 From RxVerif Require Import Mux.Val Mux.Sim Mux.SimExt Mux.Seg Mux.Ops Mux.Syntax Mux.ConfineProofs Mux.LocalSemProofs
-  Mux.OpsSpecProofs Mux.MasterProofs Mux.PromptProofs.
+  Mux.OpsSpecProofs Mux.MasterProofs Mux.PromptProofs Mux.QuietProofs.
 Import ListNotations.
 
 (* nothing is emitted for an input that has not been consumed yet: what the slot-level machine of any
@@ -51,6 +51,27 @@ Theorem C11_take_keeps_the_key_open : forall n xs,
   /\ done_of (L_take n) xs = [].
 Proof. exact take_spec. Qed.
 Print Assumptions C11_take_keeps_the_key_open.
+
+(* nothing is held back: a pipeline without completion-triggered operators (no last, reduce, terminator,
+   pad_end; at any nesting depth under group_by / roll / split / time_split / tee_map) emits nothing when a key
+   completes - so every one of its outputs has appeared in the step of a source item *)
+Theorem C11_nothing_held_back : forall (P : list op), per_item_pipe P = true ->
+  forall xs : list item, snd (ltimed item (pipe_l P) xs) = [].
+Proof. exact nothing_held_back. Qed.
+Print Assumptions C11_nothing_held_back.
+(* at slot level, on every well-formed keyed trace: the completion step of key k carries Done k alone *)
+Corollary C11_completion_step_is_bare : forall (P : list op) (t pre : list iev) (k : key) (xs : list item),
+  per_item_pipe P = true -> wf t -> filter (on_key item k) t = pre ++ lifetime item k xs ->
+  sel item k t (raw_run P t) =
+    local_run P pre ++ ([Create k] :: map (map (Next k)) (fst (ltimed item (pipe_l P) xs)) ++ [[Done k]]).
+Proof.
+  intros P t pre k xs Hp Ht E. rewrite (lifetime_outputs P t pre k xs Ht E).
+  rewrite (nothing_held_back P Hp xs). reflexivity.
+Qed.
+Print Assumptions C11_completion_step_is_bare.
+Example C11_per_item_example :
+  per_item_pipe [OGroup (FMod 2) [ORoll 3 1 [OScan A2Add (VInt 0) TInt false None; OTee Zip [[OMap FId]; [OLag 1]]]]] = true.
+Proof. reflexivity. Qed.
 
 Example C11_example :
   raw_run [ORoll 2 2 [OScan A2Add (VInt 0) TInt true None]]
